@@ -12,7 +12,7 @@ M("exit-success-without-message", "main.py",
   ["EXIT"])
 M("exit-guard-conjunct-dropped-classifier-kept", "main.py",
   "        and sf.nfev < maxfun\n        and not istate.is_success\n", "        and not istate.is_success\n",
-  ["EXIT", "NITB"], note="evaluation budget no longer stops the loop; classifier still claims it")
+  ["NITB"], note="evaluation budget no longer stops the loop; classifier still claims it")
 M("exit-target-test-ge", "main.py", "    if f0 > ftarget:\n        return False\n", "    if f0 >= ftarget + 1.0:\n        return False\n", ["EXIT"])
 M("exit-pgtol-after-x-update", "main.py",
   "        istate.task_str = \"CONVERGENCE: NORM_OF_PROJECTED_GRADIENT_<=_PGTOL\"\n        istate.is_success = True\n",
